@@ -158,8 +158,14 @@ class HdrInterp(Interp):
                 return ('h5', nm)
             if q in ('nix::hdf5::map_file_mode',):
                 return NotImplemented
-            if q == 'boost::filesystem::exists':
-                return Free(('exists',))
+            if q in ('boost::filesystem::status', 'boost::filesystem::symlink_status'):
+                # status follows symbolic links (same file the open call reaches), symlink_status does not
+                return ('fsstatus', 'followed' if q.endswith('::status') else 'link')
+            if q in ('boost::filesystem::exists', 'boost::filesystem::is_directory', 'boost::filesystem::is_regular_file', 'boost::filesystem::is_symlink'):
+                ra = [x for x in real_args(n) if x is not None]
+                v = self.ev(ra[0], env) if ra else None
+                link = isinstance(v, tuple) and v[:2] == ('fsstatus', 'link')
+                return Free((('l' if link else '') + nm,))
             if q in ('std::make_shared',):
                 vals = tuple(_show(self.ev(x, env)) for x in n.c)
                 self.log.append(('make_shared', (cal.get('targs') or ['?'])[0]) + vals)
@@ -492,5 +498,13 @@ def run_exists(prog, rep):
     fo = prog.fn('nix::File::open')
     ex = [c for c in fo.calls() if (c.callee.get('q') or '') == 'boost::filesystem::exists']
     okp = bool(ex) and ("'name'" in repr(term(ex[0])))
+    if ex and not okp:
+        # exists(st) with st = status(path{name}) (the link-following query) is the same test
+        ra = [unwrap(x) for x in real_args(ex[0]) if x is not None]
+        if ra and ra[0].k == 'ref':
+            for v in fo.walk():
+                if v.k == 'var' and v.get('lid') == ra[0].decl.get('lid') and v.c and v.c[0] is not None:
+                    st = [c for c in v.c[0].walk() if c.k == 'call' and (c.callee or {}).get('q') == 'boost::filesystem::status']
+                    okp = bool(st) and "'name'" in repr(term(st[0]))
     rule.check(okp, 'File::open|exists-same-path', rep.where(fo), fo.q, 'the front-end existence test is applied to the path that is opened')
     return rule
